@@ -468,6 +468,12 @@ func (r *histRunner) doSet(op *Op) error {
 			// "not really set if vhash is the same": whether the store sees the key's own value hash depends on which
 			// sibling owns the shared tree slot, so both outcomes (no-op, write) are admissible here
 			p, _, err := r.store.Get(newKI(key), false)
+			if err != nil && r.staleOK[op.K] == "C13-tombstone-sibling" {
+				// the key's record was discarded (known finding); the dropped same-vhash set did not bring it back
+				r.excluded["C13-tombstone-sibling"]++
+				r.label("vhash_noop_collide")
+				return nil
+			}
 			if err != nil {
 				return fmt.Errorf("Get(%q) after same-vhash set: %v", key, err)
 			}
@@ -1004,9 +1010,7 @@ func (r *histRunner) inCollisionTable(k int) bool {
 // afterAnyGCPass: keys that only a GC pass could still lose to the tombstone-sibling finding are covered by it from now on.
 func (r *histRunner) afterAnyGCPass() {
 	for k := range r.lostByGCOnly {
-		if r.staleOK[k] == "" {
-			r.staleOK[k] = "C13-tombstone-sibling"
-		}
+		r.staleOK[k] = "C13-tombstone-sibling" // (as at a restart: this finding's outcomes include those of the other markers)
 		delete(r.lostByGCOnly, k)
 	}
 }
